@@ -166,6 +166,5 @@ class InterpolatingOpacity(Opacity):
                 'Unknown interpolation mode {}'.format(self._interp_mode))
 
     def compute_opacity(self, temperature, pressure, wngrid=None):
-        import math
-        logpressure = math.log10(pressure)
+        logpressure = np.log10(pressure)
         return self.interp_bilinear_grid(temperature, logpressure, *self.find_closest_index(temperature, logpressure), wngrid) / 10000
